@@ -255,7 +255,8 @@ def window_grid(tier):
 
 @st.composite
 def window_case(draw):
-    names = st.from_regex(r'VK_[A-Z]{1,6}', fullmatch=True)
+    # unrelated variables: arbitrary ones, and ones whose names sit next to the touched variables (what a helper might pick for a stash)
+    names = st.one_of(st.from_regex(r'VK_[A-Z]{1,6}', fullmatch=True), st.sampled_from(SIBLINGS))
     extra = [[k, draw(st.text(alphabet='abc/._-019', max_size=8))] for k in draw(st.lists(names, max_size=3, unique=True))]
     return dict(calib=draw(st.sampled_from(['/calib/dir', '', '/x y/z', None, '~', '~/photo/calib', '$HOME/calib', 'relative/dir'])), resolve=draw(st.sampled_from(['@tmp', '/nonexistent', None])),
                 rescore=draw(st.booleans()), flist=draw(st.sampled_from(['ok', 'ok', 'missing', 'bad-table'])), extra=extra)
@@ -267,6 +268,8 @@ def window_classify(case):
 
 
 # ------------------------------------------------------------------ template_input
+SIBLINGS = ['PHOTO_CALIB_SAVE', 'PHOTO_CALIB_ORIG', 'OLD_PHOTO_CALIB', '_PHOTO_CALIB', 'PHOTO_CALIB_', 'RUN2D_SAVE', 'RUN1D_SAVE', 'ORIG_RUN2D', 'OLD_RUN1D',
+            'RUN2D_ORIG', '_RUN2D', 'RUN3D', 'PHOTO_REDUX', 'PHOTO_SKY']
 PAR_EXTRA = ['boss_spectro_redux', 'spectro_redux', 'photo_calib', 'spectro_match', 'topdir', 'idlspec2d_dir', 'comment']
 PAR_KEYS = ['object', 'method', 'aesthetics', 'run2d', 'run1d', 'wavemin', 'wavemax', 'snmax', 'niter', 'nkeep', 'minuse']
 
@@ -450,7 +453,8 @@ def template_grid(tier):
 
 @st.composite
 def template_case(draw):
-    names = st.from_regex(r'VK_[A-Z]{1,6}', fullmatch=True)
+    # unrelated variables: arbitrary ones, and ones whose names sit next to the touched variables (what a helper might pick for a stash)
+    names = st.one_of(st.from_regex(r'VK_[A-Z]{1,6}', fullmatch=True), st.sampled_from(SIBLINGS))
     extra = [[k, draw(st.text(alphabet='abc/._-019', max_size=8))] for k in draw(st.lists(names, max_size=3, unique=True))]
     obj = draw(st.sampled_from(['gal', 'qso', 'star', 'gal']))
     return dict(run2d=draw(st.sampled_from(['orig2d', None, 'v9_9_9', ''])), run1d=draw(st.sampled_from([None, 'orig1d', 'v8_8_8'])), object=obj,
